@@ -11,7 +11,7 @@
       separated by commas (what `Bits(<str>)` builds);  `parseRepr` — `eval` of the text of `repr`;
     * `groupsOf`       — the groups of `bpg` bits a value is made of (from the left in msb0, from the right in lsb0).
   ALG layer (function by function, bitstring/bits.py unless another file is named)
-    * `strFormAlg lsb0 l`  — `Bits.__str__` (254-277) with the slices it really takes (`self[a:b]` obeys `options.lsb0`);
+    * `strFormAlg lsb0 l`  — `Bits.__str__` (254-277) with the slices it really takes (`_absolute_slice`: msb0 under either option);
     * `reprForm`           — `Bits._repr` (279-289), `Bits.__repr__` (291-297), `ConstBitStream.__repr__` (bitstream.py:192-198);
     * `cut`                — `Bits.cut` (1388-1415) through `_slice` → `BitStore.getslice` (msb0 / lsb0);
     * `mkDtype`, `processTokens` — `Dtype(name, length)` for bin/oct/hex (dtypes.py `get_dtype`, allowed lengths
@@ -124,21 +124,19 @@ def strForm (l : Bits) : Str :=
   let e := length % 4
   pre0x ++ hexDigits (l.take (length - e)) ++ commaSp ++ pre0b ++ binDigits (l.drop (length - e))
 
-/-- ALG: `Bits.__str__` (bits.py:254-277) as written, with `self[0:n]` / `self[n:]` obeying `options.lsb0`. -/
-def strFormAlg (lsb0 : Bool) (l : Bits) : Str :=
+/-- ALG: `Bits.__str__` (bits.py:254-277) as written.  Its slices are `self._absolute_slice(a, b)`
+    (→ `BitStore.getslice_msb0`), i.e. msb0 positions whatever `options.lsb0` says (since /repo 55378c7; before,
+    `self[a:b]` obeyed lsb0 and the mixed and truncated forms came out wrong under lsb0).  The parameter `lsb0` is
+    kept so that every caller states under which option it runs. -/
+def strFormAlg (_lsb0 : Bool) (l : Bits) : Str :=
   let length := l.length
   if length = 0 then [] else
   if length > Gen.maxChars * 4 then
-    pre0x ++ hexDigits (sliceAB lsb0 l 0 (Gen.maxChars * 4)) ++ dots else
+    pre0x ++ hexDigits (sliceAB false l 0 (Gen.maxChars * 4)) ++ dots else
   if length < 32 ∧ length % 4 ≠ 0 then pre0b ++ binDigits l else
   if length % 4 = 0 then pre0x ++ hexDigits l else
   let e := length % 4
-  pre0x ++ hexDigits (sliceAB lsb0 l 0 (length - e)) ++ commaSp ++ pre0b ++ binDigits (sliceAB lsb0 l (length - e) length)
-
-/-- Region of the known finding `lsb0-str-mixed`: under lsb0 `__str__` takes its slices from the wrong end whenever it
-    has to slice at all (mixed hex+bin form, or truncation). -/
-def lsb0StrSlices (l : Bits) : Bool :=
-  (decide (l.length > Gen.maxChars * 4)) || (decide (32 ≤ l.length) && decide (l.length % 4 ≠ 0))
+  pre0x ++ hexDigits (sliceAB false l 0 (length - e)) ++ commaSp ++ pre0b ++ binDigits (sliceAB false l (length - e) length)
 
 /-! ## `repr` -/
 
@@ -177,6 +175,35 @@ def reprForm (cls : Cls) (l : Bits) (pos : Nat) : Str :=
   let s := strForm l
   let lengthString : Str := if endsWithDots s then lenComment ++ natDec l.length else []
   Cls.nameStr cls ++ ['(', '\''] ++ s ++ ['\''] ++ posString ++ [')'] ++ lengthString
+
+/-! ## `repr` of an object created from a file -/
+
+/-- What can have happened to a mutable object since it was created from the file. -/
+inductive FileMut where
+  | none | invert0 | append1 | del8 | overwrite8
+  deriving Repr, DecidableEq
+
+/-- The current value of an object created as `cls(filename=f)` from a file holding `file`, after the mutation. -/
+def applyMut (m : FileMut) (file : Bits) : Bits :=
+  match m with
+  | .none => file
+  | .invert0 => match file with | [] => [] | b :: t => (!b) :: t
+  | .append1 => file ++ [true]
+  | .del8 => file.drop 8
+  | .overwrite8 => List.replicate (min 8 file.length) true ++ file.drop 8
+
+/-- ALG: `Bits._repr` for an object whose `_filename` is set (bits.py:287-288; `_setfile` sets it when the offset
+    is 0, bits.py:564, and nothing ever clears it): the file name and the *current* length and pos, whatever
+    happened to the content since.  `fname` is the quoted path as `{self._filename!r}` prints it. -/
+def reprFileAlg (cls : Cls) (fname : Str) (len pos : Nat) : Str :=
+  let posString : Str := if pos ≠ 0 then posEq ++ natDec pos else []
+  Cls.nameStr cls ++ ['(', 'f', 'i', 'l', 'e', 'n', 'a', 'm', 'e', '='] ++ fname ++
+    [',', ' ', 'l', 'e', 'n', 'g', 't', 'h', '='] ++ natDec len ++ posString ++ [')']
+
+/-- SPEC: the value `cls(filename=f, length=n)` builds: the first `n` bits of the file (`CreationError` if the file
+    is shorter). -/
+def evalFileRepr (file : Bits) (n : Nat) : Except Err Bits :=
+  if n > file.length then .error .value else .ok (file.take n)
 
 /-! ## SPEC: the meaning of a literal initialiser string (`Bits('0x1f, 0b101')`)
 
@@ -726,6 +753,14 @@ def handle (args : List String) : String :=
     match kindOf? kind, n.toNat?, bitsOfStr? bits with
     | some k, some n, some l => if n = 0 then "bad-op" else "ok " ++ wireOfStr (arrayRepr k n l)
     | _, _, _ => "bad-op"
+  | "reprf" :: cls :: bits :: mu :: pos :: _ =>
+    let m? : Option FileMut := match mu with
+      | "none" => some .none | "invert0" => some .invert0 | "append1" => some .append1
+      | "del8" => some .del8 | "overwrite8" => some .overwrite8 | _ => none
+    match Cls.ofStr? cls, bitsOfStr? bits, m?, pos.toNat? with
+    | some k, some file, some m, some p =>
+      "ok " ++ wireOfStr (reprFileAlg k ['\'', 'F', '\''] (applyMut m file).length (if k.hasPos then p else 0))
+    | _, _, _, _ => "bad-op"
   | "arrx" :: _ => "ok roundtrip"
   | _ => "bad-op"
 
